@@ -309,25 +309,32 @@ func runInverseStage(w *out.W, tier string) {
 		}
 		sort.Strings(onlyRev)
 		sort.Strings(onlyInv)
-		// a reverse that only clears a comment the inverse plan does not bother to clear (the object is
-		// dropped right after): redundant, harmless
-		{
-			var keep []string
-			for _, s := range onlyRev {
-				if strings.HasPrefix(s, "COMMENT ON ") && strings.HasSuffix(s, " IS ''") {
-					w.Count("postgres:redundant-comment-clearing-reverse")
-					continue
+		// The disagreement is explained pattern by pattern; every pattern takes its items out of the two
+		// lists.  What no pattern explains is class reverse-not-inverse-plan.
+		take := func(l []string, f func(string) bool) (taken, rest []string) {
+			for _, s := range l {
+				if f(s) {
+					taken = append(taken, s)
+				} else {
+					rest = append(rest, s)
 				}
-				keep = append(keep, s)
 			}
-			onlyRev = keep
+			return
+		}
+		// (benign) a reverse that only clears a comment the inverse plan does not bother to clear (the
+		// object is dropped right after): redundant, harmless
+		var t []string
+		t, onlyRev = take(onlyRev, func(s string) bool { return strings.HasPrefix(s, "COMMENT ON ") && strings.HasSuffix(s, " IS ''") })
+		for range t {
+			w.Count("postgres:redundant-comment-clearing-reverse")
 		}
 		if len(onlyRev) == 0 && len(onlyInv) == 0 {
 			w.Count(src + ":reverse=inverse-plan")
 			continue
 		}
-		// tables created / dropped together with their foreign keys: DetachCycles places the keys
-		// inside CREATE TABLE or in ALTERs depending on the direction (stage cycle simulates those plans)
+		// (benign) tables created / dropped together with their foreign keys: DetachCycles places the keys
+		// inside CREATE TABLE or in ALTERs depending on the direction (stage cycle simulates those plans);
+		// the generator names foreign keys f_*
 		tableLevel := false
 		for _, c := range cs {
 			if c.k == "AT" || c.k == "DT" {
@@ -335,76 +342,111 @@ func runInverseStage(w *out.W, tier string) {
 			}
 		}
 		if tableLevel {
-			fkOnly := true
-			for _, s := range append(append([]string(nil), onlyRev...), onlyInv...) {
-				if !(strings.HasPrefix(s, "CREATE TABLE ") || strings.Contains(s, " FOREIGN KEY ") || strings.Contains(s, ":: DROP CONSTRAINT ") || strings.Contains(s, ":: DROP FOREIGN KEY ")) {
-					fkOnly = false
-				}
+			isPlacement := func(s string) bool {
+				return strings.HasPrefix(s, "CREATE TABLE ") || (strings.Contains(s, ":: ADD CONSTRAINT ") && strings.Contains(s, " FOREIGN KEY ")) ||
+					strings.Contains(s, ":: DROP CONSTRAINT \"f_") || strings.Contains(s, ":: DROP FOREIGN KEY ")
 			}
-			if fkOnly {
+			var t1, t2 []string
+			t1, onlyRev = take(onlyRev, isPlacement)
+			t2, onlyInv = take(onlyInv, isPlacement)
+			if len(t1)+len(t2) > 0 {
 				w.Count("skipped:foreign-key-placement-of-created/dropped-tables(stage cycle)")
+			}
+			if len(onlyRev) == 0 && len(onlyInv) == 0 {
 				continue
 			}
-		}
-		// MySQL, ModifyForeignKey with another referenced table/column: both directions drop the index
-		// MySQL created for the key (it re-creates one with the new key); a reverse that re-creates it
-		// explicitly with its columns (`ADD INDEX f (cols)`, the proposed fix of C17-mysql-modify-fk-reverse-empty-index)
-		// restores the same schema as the inverse plan's DROP INDEX + ADD CONSTRAINT
-		if !g.pg && strings.Contains(kinds, "MF") && len(onlyRev) > 0 && len(onlyRev) == len(onlyInv) {
-			same := true
-			for k := range onlyRev {
-				a, b := onlyRev[k], onlyInv[k]
-				i, j := strings.Index(a, ":: ADD INDEX "), strings.Index(b, ":: DROP INDEX ")
-				if i < 0 || j < 0 || strings.HasSuffix(a, " ()") || !strings.HasPrefix(a[i+len(":: ADD INDEX "):], b[j+len(":: DROP INDEX "):]+" (") {
-					same = false
-				}
-			}
-			if same {
-				w.Count("mysql:modify-fk-key-index-recreated-explicitly")
-				w.Count(src + ":reverse=inverse-plan")
-				continue
-			}
-		}
-		class := "reverse-not-inverse-plan"
-		allMatch := func(l []string, f func(string) bool) bool {
-			for _, s := range l {
-				if !f(s) {
-					return false
-				}
-			}
-			return true
 		}
 		isComment := func(s string) bool { return strings.HasPrefix(s, "COMMENT ON ") && !strings.HasSuffix(s, " IS ''") }
-		isEmptyIdx := func(s string) bool { return strings.Contains(s, ":: ADD INDEX ") && strings.HasSuffix(s, " ()") }
-		isDropIdx := func(s string) bool { return strings.Contains(s, ":: DROP INDEX ") }
 		isAddIdx := func(s string) bool {
 			return strings.HasPrefix(s, "CREATE INDEX ") || strings.HasPrefix(s, "CREATE UNIQUE INDEX ") || strings.Contains(s, ":: ADD INDEX ") ||
-				strings.Contains(s, ":: ADD UNIQUE INDEX ") || (strings.Contains(s, ":: ADD CONSTRAINT ") && strings.Contains(s, " UNIQUE ")) || isComment(s)
+				strings.Contains(s, ":: ADD UNIQUE INDEX ") || (strings.Contains(s, ":: ADD CONSTRAINT ") && strings.Contains(s, " UNIQUE ")) ||
+				(isComment(s) && strings.HasPrefix(s, "COMMENT ON INDEX "))
 		}
-		hasDIDC := strings.Contains(kinds, "DI") && strings.Contains(kinds, "DC")
-		switch {
-		case !g.pg && len(onlyRev) > 0 && allMatch(onlyRev, isEmptyIdx) && allMatch(onlyInv, isDropIdx) && strings.Contains(kinds, "MF"):
-			class = "reverse-mysql-modify-fk-empty-index"
-		case g.pg && len(onlyRev) == 0 && allMatch(onlyInv, isComment):
-			class = "reverse-postgres-drop-loses-comment"
-		case len(onlyRev) == 0 && hasDIDC && allMatch(onlyInv, isAddIdx):
-			class = "reverse-drop-column-loses-its-index"
-		}
-		var sh []string
-		for _, s := range onlyRev {
-			sh = append(sh, "rev:"+shapeOf(s))
-		}
-		for _, s := range onlyInv {
-			sh = append(sh, "inv:"+shapeOf(s))
-		}
-		w.Count(src + ":reverse!=inverse-plan")
-		w.Count("differs:" + src + ":" + strings.Join(sh, " | "))
 		var revs [][]string
 		for _, c := range pf.Changes {
 			rs, _ := c.ReverseStmts()
 			revs = append(revs, rs)
 		}
-		w.Violation(id, class, fmt.Sprintf("%s changes %s indent=%q: reverse statements not planned by the inverse change set: %s; statements of the inverse plan no reverse provides: %s | forward plan: %s",
-			src, kinds, indent, trunc(fmt.Sprintf("%q", onlyRev), 900), trunc(fmt.Sprintf("%q", onlyInv), 900), trunc(planText(pf, revs), 1500)))
+		report := func(class string, r, v []string) {
+			var sh []string
+			for _, s := range r {
+				sh = append(sh, "rev:"+shapeOf(s))
+			}
+			for _, s := range v {
+				sh = append(sh, "inv:"+shapeOf(s))
+			}
+			w.Count("differs:" + src + ":" + class + ":" + strings.Join(sh, " | "))
+			w.Violation(id, class, fmt.Sprintf("%s changes %s indent=%q: reverse statements not planned by the inverse change set: %s; statements of the inverse plan no reverse provides: %s | forward plan: %s",
+				src, kinds, indent, trunc(fmt.Sprintf("%q", r), 900), trunc(fmt.Sprintf("%q", v), 900), trunc(planText(pf, revs), 1500)))
+		}
+		// MySQL, ModifyForeignKey with another referenced table/column: `ADD INDEX f (..)` in the reverse
+		// against `DROP INDEX f` in the inverse plan (both directions drop the index MySQL created for the
+		// key).  With an empty column list the reverse is not a statement (finding
+		// C17-mysql-modify-fk-reverse-empty-index); with the key's columns (the proposed fix) it restores
+		// the same schema as the inverse plan's DROP INDEX + ADD CONSTRAINT.
+		if !g.pg && strings.Contains(kinds, "MF") {
+			var er, ev, keepRev []string
+			for _, a := range onlyRev {
+				i := strings.Index(a, ":: ADD INDEX ")
+				paired := false
+				if i >= 0 {
+					name := a[i+len(":: ADD INDEX "):]
+					if k := strings.Index(name, " ("); k > 0 {
+						want := a[:i] + ":: DROP INDEX " + name[:k]
+						for j, b := range onlyInv {
+							if b == want {
+								onlyInv = append(append([]string(nil), onlyInv[:j]...), onlyInv[j+1:]...)
+								paired = true
+								if strings.HasSuffix(a, " ()") {
+									er, ev = append(er, a), append(ev, b)
+								} else {
+									w.Count("mysql:modify-fk-key-index-recreated-explicitly")
+								}
+								break
+							}
+						}
+					}
+				}
+				if !paired {
+					keepRev = append(keepRev, a)
+				}
+			}
+			onlyRev = keepRev
+			if len(er) > 0 {
+				report("reverse-mysql-modify-fk-empty-index", er, ev)
+			}
+		}
+		// PostgreSQL: the reverse of DROP COLUMN / DROP INDEX comes without the object's comment
+		if g.pg && (strings.Contains(kinds, "DC") || strings.Contains(kinds, "DI")) && !(strings.Contains(kinds, "DI") && strings.Contains(kinds, "DC")) {
+			var c []string
+			c, onlyInv = take(onlyInv, isComment)
+			if len(c) > 0 {
+				report("reverse-postgres-drop-loses-comment", nil, c)
+			}
+		}
+		// a DropIndex skipped because its column is dropped in the same ModifyTable: nothing re-creates the index
+		if strings.Contains(kinds, "DI") && strings.Contains(kinds, "DC") {
+			var c []string
+			c, onlyInv = take(onlyInv, func(s string) bool { return isAddIdx(s) || (g.pg && isComment(s)) })
+			if len(c) > 0 {
+				report("reverse-drop-column-loses-its-index", nil, c)
+			}
+		}
+		// PostgreSQL: likewise a DropForeignKey skipped because its child column is dropped in the same ModifyTable
+		if g.pg && strings.Contains(kinds, "DF") && strings.Contains(kinds, "DC") {
+			var c []string
+			c, onlyInv = take(onlyInv, func(s string) bool {
+				return strings.Contains(s, ":: ADD CONSTRAINT ") && strings.Contains(s, " FOREIGN KEY ")
+			})
+			if len(c) > 0 {
+				report("reverse-drop-column-loses-its-foreign-key", nil, c)
+			}
+		}
+		if len(onlyRev) == 0 && len(onlyInv) == 0 {
+			w.Count(src + ":reverse!=inverse-plan(known patterns only)")
+			continue
+		}
+		w.Count(src + ":reverse!=inverse-plan")
+		report("reverse-not-inverse-plan", onlyRev, onlyInv)
 	}
 }
